@@ -885,3 +885,17 @@ M("C07-benign-char-literal-signed-char", "C07", "src/cppparser/cppPreprocessor.c
   "  if (!str.empty()) {\n    result.u.integer = (int)str[0];\n  } else {\n    result.u.integer = 0;\n  }\n\n  return get_literal(CHAR_TOK",
   "  if (!str.empty()) {\n    result.u.integer = (int)(signed char)str[0];\n  } else {\n    result.u.integer = 0;\n  }\n\n  return get_literal(CHAR_TOK",
   benign=True)
+
+_C20_OLD = "  string name = mid->name;\n  if (name < wrapper_hash_name) {\n    return binary_search_wrapper_hash(mid + 1, end, wrapper_hash_name);\n\n  } else if (wrapper_hash_name < name) {"
+_C20_INC = ("src/interrogatedb/interrogateDatabase.cxx", '#include "interrogate_datafile.h"\n', '#include "interrogate_datafile.h"\n#include <cstring>\n')
+MUTANTS.append({"id": "C20-unique-name-prefix-match", "prop": "C20", "benign": False,
+  "expect": "R20.8|binary_search_wrapper_hash|hit-only-on-equal-names",
+  "edits": [_C20_INC, ("src/interrogatedb/interrogateDatabase.cxx", _C20_OLD,
+            "  int cmp = strncmp(mid->name, wrapper_hash_name.c_str(), wrapper_hash_name.size());\n  if (cmp < 0) {\n    return binary_search_wrapper_hash(mid + 1, end, wrapper_hash_name);\n\n  } else if (cmp > 0) {")]})
+MUTANTS.append({"id": "C20-benign-unique-name-strcmp", "prop": "C20", "benign": True, "expect": None,
+  "edits": [_C20_INC, ("src/interrogatedb/interrogateDatabase.cxx", _C20_OLD,
+            "  int cmp = strcmp(mid->name, wrapper_hash_name.c_str());\n  if (cmp < 0) {\n    return binary_search_wrapper_hash(mid + 1, end, wrapper_hash_name);\n\n  } else if (cmp > 0) {")]})
+M("C20-unique-name-one-sided", "C20", "src/interrogatedb/interrogateDatabase.cxx",
+  "  } else if (wrapper_hash_name < name) {\n    return binary_search_wrapper_hash(begin, mid, wrapper_hash_name);\n\n  } else {\n    return mid->index_offset;\n  }",
+  "  } else if (wrapper_hash_name.size() < name.size()) {\n    return binary_search_wrapper_hash(begin, mid, wrapper_hash_name);\n\n  } else {\n    return mid->index_offset;\n  }",
+  expect="R20.8|binary_search_wrapper_hash|hit-only-on-equal-names")
